@@ -21,10 +21,24 @@ func init() {
 func c01Eval(c *Config, t TreeCase) string {
 	return safely(func() string {
 		// direction 1: API -> wire -> API -> wire
+		atoms.ResetGuards()
 		m := BuildMsg(c, t.Hdr, t.Tree)
 		b1, err := m.Serialize()
 		if err != nil {
 			return "api: Serialize failed: " + err.Error()
+		}
+		if s := atoms.GuardsIntact(); s != "" {
+			return "api: " + s
+		}
+		if hasGroup(t.Tree) {
+			mt := BuildMsgTopDown(c, t.Hdr, t.Tree)
+			bt, err := mt.Serialize()
+			if err != nil || !bytes.Equal(bt, b1) {
+				return fmt.Sprintf("api: the same tree assembled top-down (grouped AVP created with NewAVP around an empty group, members added afterwards) serialises differently at byte %d (err %v)", firstDiff(bt, b1), err)
+			}
+			if _, err := diam.ReadMessage(bytes.NewReader(bt), c.A.D.P); err != nil {
+				return "api: a message assembled top-down cannot be read back: " + err.Error()
+			}
 		}
 		m2, err := diam.ReadMessage(bytes.NewReader(b1), c.A.D.P)
 		if err != nil {
